@@ -18,6 +18,66 @@ class PyFunc:
         self.report = {"lines_in": node.end_lineno - node.lineno + 1, "decorators_dropped":
                        ["@" + ast.unparse(d) for d in node.decorator_list]}
         self.sha = hashlib.sha256(src_segment.encode()).hexdigest()[:16]
+        eff = decorator_effects(node)
+        if eff:
+            self.report["decorator_effects"] = eff
+
+
+TRANSPARENT_DECORATORS = ("property", "staticmethod", "classmethod", "abstractmethod", "functools.wraps", "wraps")
+CACHING_DECORATORS = ("lru_cache", "cache", "cached_property", "functools.lru_cache", "functools.cache", "functools.cached_property")
+IMMUTABLE_CTORS = ("int", "float", "str", "bytes", "bool", "complex", "frozenset", "pd.Timestamp", "pd.Timedelta", "pandas.Timestamp",
+                   "pandas.Timedelta", "len", "repr", "hash", "ord", "chr", "re.compile", "type")
+MUTABLE_CTORS = ("list", "dict", "set", "bytearray", "from_buffer", "ThriftObject", "ThriftObject.from_fields", "copy.copy", "copy.deepcopy",
+                 "io.BytesIO", "np.array", "np.empty", "np.zeros", "np.ones", "np.frombuffer", "np.asarray", "pd.DataFrame", "pd.Series",
+                 "pd.Index", "defaultdict", "OrderedDict")
+
+
+def _return_kind(e, params):
+    """'immutable' | 'mutable' | 'unknown' for a returned expression (syntactic)"""
+    if e is None or isinstance(e, ast.Constant):
+        return "immutable"
+    if isinstance(e, ast.Name):
+        return "immutable" if e.id in params else "unknown"        # arguments of a cached function are hashable keys
+    if isinstance(e, (ast.Compare, ast.BoolOp)) or isinstance(e, ast.UnaryOp) and isinstance(e.op, ast.Not):
+        return "immutable" if not isinstance(e, ast.BoolOp) else \
+            ("immutable" if all(_return_kind(v, params) == "immutable" for v in e.values) else "unknown")
+    if isinstance(e, (ast.List, ast.Dict, ast.Set, ast.ListComp, ast.DictComp, ast.SetComp)):
+        return "mutable"
+    if isinstance(e, ast.Tuple):
+        ks = [_return_kind(x, params) for x in e.elts]
+        return "mutable" if "mutable" in ks else ("immutable" if all(k == "immutable" for k in ks) else "unknown")
+    if isinstance(e, ast.IfExp):
+        ks = [_return_kind(e.body, params), _return_kind(e.orelse, params)]
+        return "mutable" if "mutable" in ks else ("immutable" if all(k == "immutable" for k in ks) else "unknown")
+    if isinstance(e, ast.Call):
+        f = ast.unparse(e.func)
+        if f in IMMUTABLE_CTORS:
+            return "immutable"
+        if f in MUTABLE_CTORS or f.startswith("parquet_thrift."):
+            return "mutable"
+        return "unknown"
+    return "unknown"
+
+
+def decorator_effects(node):
+    """the front end DROPS decorators (the body is what is verified): say for each one whether that is sound.
+    -> list of {decorator, class: transparent | caching | other, returns: [...kinds] (caching only)}"""
+    out = []
+    for d in node.decorator_list:
+        txt = ast.unparse(d)
+        head = ast.unparse(d.func) if isinstance(d, ast.Call) else txt
+        if head in TRANSPARENT_DECORATORS or head.endswith((".setter", ".getter", ".deleter")):
+            out.append({"decorator": "@" + txt, "class": "transparent"})
+        elif head in CACHING_DECORATORS:
+            params = {a.arg for a in node.args.args + node.args.kwonlyargs}
+            kinds = []
+            for n in ast.walk(node):
+                if isinstance(n, ast.Return):
+                    kinds.append([n.lineno, ast.unparse(n.value)[:60] if n.value is not None else "None", _return_kind(n.value, params)])
+            out.append({"decorator": "@" + txt, "class": "caching", "returns": kinds})
+        else:
+            out.append({"decorator": "@" + txt, "class": "other"})
+    return out
 
 
 def parse_module(rel):
